@@ -502,8 +502,10 @@ func (x *Exec) makeSlice(st *State, fr *Frame, in *ssa.MakeSlice) Val {
 		}()
 	}
 	r := x.newRegion(st, nil)
-	h := x.heap(st, et)
-	x.setHeap(st, et, fmt.Sprintf("(store %s %s ((as const (Array Int %s)) %s))", h, r, x.te.Sort(et), x.te.Zero(et)))
+	// Allocation does not create a new heap value: the fresh region was never
+	// constrained before, so we simply learn its (zeroed) contents.  This keeps
+	// heap-dependent uninterpreted predicates stable across allocations.
+	x.assume(st, fmt.Sprintf("(= (select %s %s) ((as const (Array Int %s)) %s))", x.heap(st, et), r, x.te.Sort(et), x.te.Zero(et)))
 	return Val{S: x.S.Define("s", "Slice", "(mk_slice "+r+" 0 "+l+" "+c+")"), T: in.Type()}
 }
 
@@ -606,13 +608,12 @@ func (x *Exec) alloc(st *State, fr *Frame, in *ssa.Alloc) Val {
 	}
 	if at, ok := et.Underlying().(*types.Array); ok {
 		r := x.newRegion(st, nil)
-		h := x.heap(st, at.Elem())
-		x.setHeap(st, at.Elem(), fmt.Sprintf("(store %s %s %s)", h, r, x.te.Zero(et)))
+		x.assume(st, fmt.Sprintf("(= (select %s %s) %s)", x.heap(st, at.Elem()), r, x.te.Zero(et)))
 		fr.heapLocal[in] = r
 		return Val{DP: &DPtr{HeapT: at.Elem(), Reg: r, Idx: wholeArray}, T: in.Type()}
 	}
 	r := x.newRegion(st, et)
-	x.heapStore(st, et, r, "0", x.te.Zero(et))
+	x.assume(st, fmt.Sprintf("(= (select (select %s %s) 0) %s)", x.heap(st, et), r, x.te.Zero(et)))
 	fr.heapLocal[in] = r
 	return Val{DP: &DPtr{HeapT: et, Reg: r, Idx: "0"}, T: in.Type()}
 }
